@@ -224,6 +224,15 @@ def _classes():
         def ow(self, token, mode="none", gate=None, extra=None):
             _body(token, mode, gate)
 
+        def gen(self, token, mode, item_tokens):
+            """hands out a generator: the body of each item runs later, while the request that fetches the item is being served"""
+            _body(token, mode, None)
+
+            def item(t):
+                _body(t, "none", None)
+                return t
+            return (item(t) for t in item_tokens)
+
         def nest(self, token, mode, inner_kind, inner_token, inner_mode):
             """sets its own annotations, then is itself a client of another daemon (a server calling a server)"""
             _body(token, mode, None)
@@ -633,6 +642,43 @@ class _Run(object):
         self.pool_quiet(self.nopen())
         return tok
 
+    def step_stream(self, conn, st_, idx=0):
+        """a method that returns a generator; each item is fetched by a request of its own (to the daemon's own object), and between the
+        fetches the server serves somebody else: inside the generator's body the context is that of the request that fetches the item"""
+        from vlib import live
+        if conn.kind != "raw":
+            return self.step_call(conn, dict(st_, kind="ret"), idx=idx)
+        mode = st_["ann"]
+        tok, items = next(_tokens), [next(_tokens), next(_tokens)]
+        ser = SERS[st_.get("ser", 0) % 4]
+        what = "gen(token %d, %s) by client %d [step %s]" % (tok, mode, conn.idx, idx)
+        self.hand_over(tok)
+        payload = live.call_payload(ser, "t", "gen", (tok, mode, items), {})
+        sent, data = self.raw_request(conn, ser, payload, 0, tok, st_.get("reqann", 0), bool(st_.get("corr")), [tok], what)
+        self.expect(tok, conn, sent["ann"], sent["corr"], sent["seq"], sent["flags"], sent["ser"], "call", sent["req"], what)
+        conn.peer.send(data)
+        m = self.read(conn, what)
+        strm = [bytes(v) for k, v in m["annotations"] if k == "STRM"]
+        self.observe("result", conn, what, [tok], [(k, v) for k, v in m["annotations"] if k != "STRM"], sent["req"], m)
+        if m["type"] != wire.RESULT or not strm:
+            raise HarnessError("C12: %s did not open an item stream: type %d flags %x" % (what, m["type"], m["flags"]))
+        sid = strm[0].decode()
+        for k, it in enumerate(items):
+            if len(self.conns) > 1:
+                # somebody else is served in between (on the multiplex server: by the same thread)
+                oc = self.conns[(conn.idx + 1) % len(self.conns)]
+                if oc.open or self.cfg[0] != "thread" or self.nopen() < self.cfg[1]:      # (never at the price of this connection: a full pool stays as it is)
+                    other = self.ensure((conn.idx + 1) % len(self.conns), st_)
+                    self.step_call(other, {"kind": "ret", "ann": "none", "ser": st_.get("ser", 0), "reqann": 1, "corr": 1}, idx="%s, between the items" % idx)
+            if not conn.open:
+                break
+            whatk = "item %d (token %d) of the stream of gen(token %d), fetched by client %d [step %s]" % (k, it, tok, conn.idx, idx)
+            payloadk = live.call_payload(ser, "Pyro.Daemon", "get_next_stream_item", (sid,), {})
+            sentk, datak = self.raw_request(conn, ser, payloadk, 0, it, st_.get("reqann", 0), bool(st_.get("corr")), [it], whatk)
+            self.expect(it, conn, sentk["ann"], sentk["corr"], sentk["seq"], sentk["flags"], sentk["ser"], "call", sentk["req"], whatk)
+            self.finish_request(conn, sentk, datak, [it], whatk)
+        return tok
+
     def step_nested(self, conn, st_, idx=0):
         """a call whose method sets annotations and then calls another daemon through a Proxy of its own"""
         from vlib import live
@@ -960,6 +1006,10 @@ def _reset_case_state(S):
     with S.daemon.v_lock:
         del S.daemon.v_validated[:]
         del S.daemon.v_disconnects[:]
+    try:
+        S.daemon.streaming_responses.clear()        # (item streams the case left unfinished)
+    except Exception:       # noqa
+        pass
 
 
 def _run_seq(r, case):
@@ -985,6 +1035,8 @@ def _run_seq(r, case):
             r.step_batch(conn, st_, idx=idx)
         elif op == "nested":
             r.step_nested(conn, st_, idx=idx)
+        elif op == "stream":
+            r.step_stream(conn, st_, idx=idx)
         elif op == "ping":
             r.step_ping(conn, st_, idx=idx)
         elif op == "bad":
@@ -1076,7 +1128,7 @@ def run_case(case, keep=False):
 # ------------------------------------------------------------------------------------------------
 # generation: one integer per step (mixed radix), decoded into a readable step dict
 # ------------------------------------------------------------------------------------------------
-OPS = ["call:ret", "call:rai", "call:ow", "batch", "ping", "reconnect", "call:rai", "call:ow", "bad", "disconnect", "ping", "call:ret", "nested", "batch", "gone:ret", "gone:ow"]
+OPS = ["call:ret", "call:rai", "call:ow", "batch", "ping", "reconnect", "call:rai", "call:ow", "bad", "disconnect", "ping", "call:ret", "nested", "batch", "gone:ret", "gone:ow", "stream", "stream"]
 ANN = ["none", "assign", "mutate", "assign", "mutate"]
 OWMODES = ["await", "free", "defer1", "deferend", "definto", "definto"]
 WHY = ["object", "method", "payload"]
@@ -1112,6 +1164,8 @@ def decode_step(x):
         st_["rawresp"] = rawresp
     elif name == "bad":
         st_["why"] = WHY[why]
+    elif name == "stream":
+        st_["ann"] = ANN[ann]
     elif name == "nested":
         st_["ann"] = ANN[ann]
         st_["inner"] = {"kind": MEMBER[m0][0], "ann": MEMBER[m0][1]}
@@ -1186,7 +1240,7 @@ def _annotating_trigger(st_):
 
 
 def _answers(st_):
-    return st_["op"] in ("ping", "bad", "reconnect", "nested") or (st_["op"] == "call" and st_["kind"] != "ow") or (st_["op"] == "batch" and not st_.get("oneway"))
+    return st_["op"] in ("ping", "bad", "reconnect", "nested", "stream") or (st_["op"] == "call" and st_["kind"] != "ow") or (st_["op"] == "batch" and not st_.get("oneway"))
 
 
 def _nontrivial(case):
@@ -1199,6 +1253,8 @@ def _nontrivial(case):
     steps = case["steps"]
     for i, s in enumerate(steps):
         if _annotating_trigger(s) and any(_answers(x) for x in steps[i + 1:]):
+            return True
+        if s["op"] == "stream":
             return True
     return False
 
@@ -1238,6 +1294,8 @@ def _labels(case):
             l.append("malformed-call")
         if s["op"] == "gone":
             l.append("peer-reset-while-request-is-decoded")
+        if s["op"] == "stream":
+            l.append("context-inside-a-generator-body")
         if s["op"] == "nested":
             l.append("nested-call" + ("-inner-annotates" if s["inner"]["ann"] != "none" and s["inner"]["kind"] == "ret" else ""))
     return sorted(set(l))
